@@ -749,7 +749,57 @@ Proof.
   apply min_ok_normal; [exact Hnm|reflexivity].
 Qed.
 
-(* ---------- refutations: the validators the code applies do not confine ---------- *)
+(* ---------- since fix C19-validate-names: the code's validator implies confinement ---------- *)
+Lemma safe_no_slash s : safe_component s = true -> no_slash s = true.
+Proof.
+  unfold safe_component, no_slash. destruct s as [|c s]; [discriminate|]. intros H.
+  apply andb_true_iff in H. destruct H as [_ H].
+  apply forallb_forall. intros x Hx. pose proof (proj1 (forallb_forall _ _) H x Hx) as Hc.
+  unfold safe_char in Hc. apply andb_true_iff in Hc. destruct Hc as [Hc _]. apply andb_true_iff in Hc. tauto.
+Qed.
+
+Lemma no_slash_stays1 x : no_slash x = true -> stays_within 1 x = true.
+Proof. intros H. unfold stays_within. rewrite split_no_slash by exact H. apply min_ok_free. reflexivity. Qed.
+
+Theorem site_lookup_upload_confined D name gz : is_dir D -> upload_ok name = true ->
+  confined D (site_lookup_upload D name gz) = true.
+Proof.
+  intros HD H. apply site_lookup_upload_guarded; auto. apply no_slash_stays1.
+  apply safe_no_slash in H. unfold upload_name.
+  destruct (has_suffix (lower name) s_csv || has_suffix (lower name) s_csvgz); auto.
+  rewrite no_slash_app, H. destruct gz; reflexivity.
+Qed.
+
+Theorem site_inputlookup_confined D f : is_dir D -> inputlookup_ok f = true ->
+  confined D (site_inputlookup D f) = true.
+Proof.
+  intros HD H. unfold inputlookup_ok in H. apply andb_true_iff in H. destruct H as [H _].
+  apply site_inputlookup_guarded; auto. apply no_slash_stays1, safe_no_slash, H.
+Qed.
+
+Theorem site_bulk_index_confined D H idx sid suf : is_dir D -> good_host H -> index_ok idx = true ->
+  numeral sid = true -> numeral suf = true ->
+  confined D (site_suffix_file D H idx sid) = true /\
+  confined D (site_segdir D H idx sid suf) = true /\
+  confined D (site_active_dir D H idx) = true.
+Proof.
+  intros HD HH Hi Hs Hu. apply safe_no_slash in Hi. repeat split.
+  - apply site_suffix_file_guarded; auto. apply numeral_no_slash; auto.
+  - apply site_segdir_guarded; auto.
+  - apply site_active_dir_guarded; auto.
+Qed.
+
+Theorem site_alias_confined D H org idx : is_dir D -> good_host H ->
+  (org = [] \/ numeral org = true) -> alias_ok idx = true -> confined D (site_alias D H org idx) = true.
+Proof. intros. apply site_alias_guarded; auto. apply safe_no_slash; auto. Qed.
+
+Theorem site_tagstree_confined D H mid suf key : is_dir D -> good_host H ->
+  numeral mid = true -> numeral suf = true -> tagkey_ok key = true ->
+  confined D (site_tagstree D H mid suf key) = true.
+Proof. intros. apply site_tagstree_guarded; auto. apply safe_no_slash; auto. Qed.
+
+(* ---------- refutations: the validators the code applied BEFORE the fix do not confine (kept as
+   documentation; for route-parameter sites: what happens without the router's guarantee) ---------- *)
 Definition wD : list N := [47;100;47].            (* "/d/" *)
 Definition wH : list N := [104].                   (* "h" *)
 Definition w_up3 : list N := [46;46;47;46;46;47;46;46;47;120].     (* "../../../x" *)
@@ -762,7 +812,7 @@ Lemma wH_good : good_host wH.
 Proof. split; reflexivity. Qed.
 
 Theorem site_lookup_upload_refuted : exists D name gz,
-  is_dir D /\ upload_ok name = true /\ confined D (site_lookup_upload D name gz) = false.
+  is_dir D /\ upload_ok_v0 name = true /\ confined D (site_lookup_upload D name gz) = false.
 Proof. exists wD, w_up3, false. split; [exact wD_is_dir|]. split; vm_compute; reflexivity. Qed.
 
 Theorem site_lookup_file_unguarded_refuted : exists D name,
@@ -770,7 +820,7 @@ Theorem site_lookup_file_unguarded_refuted : exists D name,
 Proof. exists wD, w_up3. split; [exact wD_is_dir|]. vm_compute; reflexivity. Qed.
 
 Theorem site_inputlookup_refuted : exists D f,
-  is_dir D /\ inputlookup_ok f = true /\ confined D (site_inputlookup D f) = false.
+  is_dir D /\ inputlookup_ok_v0 f = true /\ confined D (site_inputlookup D f) = false.
 Proof. exists wD, w_up2csv. split; [exact wD_is_dir|]. split; vm_compute; reflexivity. Qed.
 
 Theorem site_dashboard_unguarded_refuted : exists D H id,
@@ -799,9 +849,20 @@ Proof.
   repeat split; vm_compute; reflexivity.
 Qed.
 
+(* the validator rejects every witness of the pre-fix refutations, and accepts ordinary names *)
+Example validator_rejects_witnesses :
+  safe_component w_up3 = false /\ safe_component w_up2csv = false /\ safe_component w_up6 = false /\
+  safe_component DD = false /\ safe_component [DOT] = false /\ safe_component [] = false /\
+  safe_component [97;92;98] = false /\ safe_component [97;0] = false.
+Proof. repeat split; vm_compute; reflexivity. Qed.
+Example validator_sat :
+  upload_ok [97;46;99;115;118] = true /\ inputlookup_ok [97;46;99;115;118] = true /\
+  index_ok [105;45;49;46;120] = true /\ tagkey_ok [46;46;46] = true.
+Proof. repeat split; vm_compute; reflexivity. Qed.
+
 (* non-vacuity of the guards *)
-Example guard_upload_sat : stays_within 1 (upload_name [97;98] false) = true /\ upload_ok [97;98] = true.
-Proof. split; vm_compute; reflexivity. Qed.
+Example guard_upload_sat : stays_within 1 (upload_name [97;98] false) = true /\ upload_ok [97;98] = true /\ upload_ok_v0 [97;98] = true.
+Proof. repeat split; vm_compute; reflexivity. Qed.
 Example guard_inputlookup_sat : stays_within 1 [97;46;99;115;118] = true /\ inputlookup_ok [97;46;99;115;118] = true.
 Proof. split; vm_compute; reflexivity. Qed.
 Example guard_no_slash_sat : no_slash [46;46] = true /\ no_slash [97;45;49] = true.
